@@ -83,6 +83,7 @@ fn base(name: &str, prop: &'static str, alphabet: Vec<Cmd>, depth: usize, tier: 
         alt_thread_from: 0,
         no_dedup: false,
         alt_conn_from: 0,
+        victim_deviations: None,
         roots: vec![],
     }
 }
@@ -210,6 +211,11 @@ fn c02(tier: Tier) -> Vec<SeqCfg> {
     a.push(incr(K1, 0, 10, 0, Current));
     // a client-supplied CAS just below the top on an absent key (the item gets 2^64-1)
     a.push(store(StoreKind::Set, K2, b"t", 0, 0, Arb(u64::MAX - 1)));
+    // a guarded store that is also over the item size limit: refused (for size or for its CAS), and
+    // the item it names is untouched either way
+    a.push(store(StoreKind::Set, K1, &vec![b'x'; 1100], 2, 0, Stale1));
+    a.push(store(StoreKind::Set, K1, &vec![b'x'; 1100], 2, 0, Current));
+    a.push(quiet(store(StoreKind::Set, K1, &vec![b'x'; 1100], 2, 0, Arb(0x1234))));
     // the quiet forms report a failed guard like the loud ones (only success is silent)
     a.push(quiet(store(StoreKind::Set, K1, b"q", 2, 0, Stale1)));
     a.push(quiet(store(StoreKind::Replace, K1, b"q", 3, 0, Stale1)));
@@ -347,6 +353,11 @@ fn c06(tier: Tier) -> Vec<SeqCfg> {
         prepend(K1, b"head", Zero),
         quiet(append(K1, b"qt", Zero)),
         quiet(prepend(K1, b"qh", Zero)),
+        // over the item size limit: refused for size - and a refused command changes nothing
+        add(K1, &vec![b'y'; 1100], 9, 0),
+        replace(K1, &vec![b'z'; 1100], 9, 0),
+        append(K1, &vec![b'+'; 1100], Zero),
+        quiet(prepend(K1, &vec![b'-'; 1100], Zero)),
         get(K1),
         delete(K1, Zero),
         flush(None),
@@ -419,6 +430,10 @@ fn c07(tier: Tier) -> Vec<SeqCfg> {
     a.push(incr(K1, 1, 5, 0, Current));
     a.push(incr(K1, 1, 5, 0, Stale1));
     a.push(decr(K1, 1, 5, 0, Current));
+    // a CAS that names no item (the key is absent, or holds something else): on an absent key the
+    // counter is created all the same
+    a.push(incr(K1, 1, 5, 0, Arb(0x1234)));
+    a.push(decr(K1, 1, 6, 3, Arb(0x1234)));
     a.push(get(K1));
     a.push(delete(K1, Zero));
     a.push(tick(5));
@@ -514,6 +529,40 @@ fn c14(tier: Tier) -> Vec<SeqCfg> {
         let mut c = base(&format!("C14/L={}", l), "C14", a.clone(), if tier == Tier::Quick { 5 } else if *l <= 34 { 7 } else { 6 }, tier);
         c.sut.policy = Policy::Random(*l);
         c.evict = Evict::Tight;
+        v.push(c);
+    }
+    // one store that has to evict a dozen records in a row, then further stores: a cache filled to
+    // the limit with twelve 25-byte records (start history; a record counts 24 bytes + its value),
+    // then a 224-byte record, 25-byte records under fresh keys, overwrites.  The eviction loop runs until the counter is back under the
+    // limit however many rounds that takes; whatever a long eviction leaves behind, the next store
+    // is again within L + its own record.  The full victim tree of such a step is factorial: the
+    // first record in iteration order is the default victim, every step may depart from it at most
+    // once (quick) / twice (thorough)
+    {
+        let mut a: Vec<Cmd> = vec![];
+        for i in 0..12u8 {
+            a.push(set(&[b'a', b'a' + i], b"s", i as u32, 0));
+        }
+        // the large record under four different keys: where it sits in the store's iteration order
+        // (first, so that the default victim is the large record itself, or behind the small ones)
+        // is part of the scenario
+        for k in [b"kb", b"kc", b"kd", b"ke"] {
+            a.push(set(k, &vec![b'B'; 200], 77, 0)); // 12..15
+        }
+        a.push(set(b"c0", b"n", 78, 0)); // 16
+        a.push(set(b"c1", b"n", 79, 0)); // 17
+        a.push(append(b"c0", b"+", Zero)); // 18
+        a.push(delete(b"kb", Zero)); // 19
+        let dev = if tier == Tier::Quick { 1 } else { 2 };
+        let mut c = base(&format!("C14/nine-victims-in-a-row-L=300/victim-deviations<={}", dev), "C14", a, if tier == Tier::Quick { 2 } else { 3 }, tier);
+        c.sut.policy = Policy::Random(300);
+        c.evict = Evict::Tight;
+        c.victim_deviations = Some(dev);
+        c.roots.push((0..12u16).collect());
+        for big in 12..16u16 {
+            c.roots.push((0..12u16).chain(std::iter::once(big)).collect());
+        }
+        c.no_dedup = true;
         v.push(c);
     }
     v
